@@ -47,7 +47,7 @@ func c04Config(name string, thorough bool) *c04Cfg {
 	case "framer":
 		c = &c04Cfg{mode: "framer", cell: 50, sndS: 2, sndC: 3, rcvS: 4, rcvC: 6, maxS: 4, maxC: 6, depth: 6}
 		if thorough {
-			c.depth = 8
+			c.depth = 7
 		}
 	case "recv":
 		c = &c04Cfg{mode: "recv", cell: 10, sndS: 2, sndC: 3, rcvS: 4, rcvC: 6, maxS: 4, maxC: 6, depth: 5}
